@@ -116,18 +116,18 @@ impl IntoSignedNum for i32 {
     fn into_signed(self, encoding: Encoding) -> Term {
         let modulus = self.unsigned_abs() as usize;
 
-        let numeral = match encoding {
-            Church => modulus.into_church(),
-            Scott => modulus.into_scott(),
-            Parigot => modulus.into_parigot(),
-            StumpFu => modulus.into_stumpfu(),
+        let (numeral, zero) = match encoding {
+            Church => (modulus.into_church(), 0.into_church()),
+            Scott => (modulus.into_scott(), 0.into_scott()),
+            Parigot => (modulus.into_parigot(), 0.into_parigot()),
+            StumpFu => (modulus.into_stumpfu(), 0.into_stumpfu()),
             Binary => panic!("signed binary numbers are not supported"),
         };
 
         if self > 0 {
-            tuple!(numeral, abs!(2, Var(1)))
+            tuple!(numeral, zero)
         } else {
-            tuple!(abs!(2, Var(1)), numeral)
+            tuple!(zero, numeral)
         }
     }
 }
